@@ -43,8 +43,24 @@ RULE = ("dense / sparse / Kruskal / Tucker / sum holders of small-integer data o
         "(DTYPE_PENDING: single-precision rounding, tagged pending-deviation, not a defect); tensor.ttt and sparse "
         "scale on same-typed non-float64 operands are the known findings K02-ttt-storage-dtype / "
         "K02-sp-scale-storage-dtype, accepted only when the result is exactly numpy's arithmetic in that type; "
-        "the same array held five ways; plus a malformed stream (wrong sizes, contradictory mode "
-        "designations). Each implementation result is compared with the Lean spec value (sum over indices) and with "
+        "the same array held five ways; "
+        "family ttsv: tensor.ttsv ALWAYS on every cubical shape of order 1..5 (extents 1..3, order 5 with extent 3 and "
+        "extent 4 in the thorough tier) x skip_dim absent / 0 .. N-1 x version absent / 1 / 2, vectors with zeros and "
+        "negative entries handed over as 1-d array / list / tuple / column / row, skip_dim positional or keyword; "
+        "non-cubical shapes whose multiplied modes match the vector (valid under version=1, refused by the default); "
+        "refused requests (skip_dim -2 / -1 / N / N+1, version 0 / 3, non-cubical, wrong vector length) and the wrong "
+        "vector length that is never looked at (nothing multiplied); result kind asserted (scalar / 1-d / 2-d array / "
+        "tensor; the extent-1 skip_dim=0 scalar of the default version is the known finding K02-ttsv-extent1-scalar), "
+        "and ttsv in the dtypes family (default version on same-typed narrow data and vector = known finding "
+        "K02-ttsv-storage-dtype, accepted only when the result is numpy's arithmetic in that type); "
+        "family tucker_sparse_core: innerprod / norm / mttkrp of a Tucker tensor whose core is an sptensor storing "
+        "nothing / one entry / half / every entry in every stored order, non-cubical cores, factors with negative "
+        "entries; other operand dense / sparse / Kruskal / Tucker with a dense or sparse core, both call orders; ALWAYS "
+        "one case per outcome of the size switches (tensor smaller / equal / larger than the core, first core larger / "
+        "equal / smaller) x sparsity class; mttkrp for every mode n with a factor list and a Kruskal operand (every "
+        "weight pattern); "
+        "plus a malformed stream (wrong sizes, contradictory mode designations, a mode listed twice, a mode index that "
+        "is not a mode, factor lists of the wrong length). Each implementation result is compared with the Lean spec value (sum over indices) and with "
         "the Lean model. non-trivial = accepted and operand has a non-zero entry; distinct = distinct case hash")
 ASSUMPTIONS = [
     "values are small integers, so every float operation of the implementation is exact (dtypes family: the "
@@ -695,9 +711,43 @@ def run_impl(c):
         if c["modes"] is None:
             return canon(X.reconstruct(samples))
         return canon(X.reconstruct(samples, list(c["modes"])))
+    if op == "ttsv":
+        xconv = c.get("xconv", "array")
+        x = [float(fnum(v)) for v in c["x"]]
+        if mdt is not float:      # dtypes family: the vector is stored in a narrow type
+            xo = marr(c["x"])
+        elif xconv == "array":
+            xo = lay_arr(np.array(x, dtype=float), lay if lay in ("C", "F", "strided") else "C")
+        elif xconv in ("col", "row"):
+            xo = lay_arr(np.array(x, dtype=float), xconv)
+        elif xconv == "tuple":
+            xo = tuple(x)
+        else:
+            xo = list(x)
+        args, kw = [xo], {}
+        if c["skip"] is not None:
+            if c.get("skip_pos"):
+                args.append(c["skip"])
+            else:
+                kw["skip_dim"] = c["skip"]
+        if c["ver"] != "none":
+            kw["version"] = int(c["ver"])
+        return canon(X.ttsv(*args, **kw))
     if op == "tucker_sp":
         if c["what"] == "full":
             return canon(X.full())
+        if c["what"] == "norm":
+            return canon(X.norm())
+        if c["what"] == "innerprod":
+            Y = build(c["Y"], lay)
+            return canon(Y.innerprod(X) if c.get("rev") else X.innerprod(Y))
+        if c["what"] == "mttkrp":
+            U = c["U"]
+            if "kruskal" in U:
+                Uo = build({"kind": "kruskal", **U["kruskal"]}, lay)
+            else:
+                Uo = [lay_arr(np.array(f, dtype=float), lay, j) for j, f in enumerate(U["list"])]
+            return canon(np.asarray(X.mttkrp(Uo, c["n"])))
         vs = [lay_arr(np.array(v, dtype=float), lay, j) for j, v in enumerate(c["vs"])]
         kw = {}
         if c["dims"] is not None:
@@ -710,7 +760,10 @@ def run_impl(c):
 
 def request(c):
     op = c["op"]
-    r = {k: v for k, v in c.items() if k not in ("op", "valid", "tag", "single", "outer", "lay", "vlay", "fk", "mdtype", "dt", "deffun", "bare")}
+    r = {k: v for k, v in c.items() if k not in ("op", "valid", "tag", "single", "outer", "lay", "vlay", "fk", "mdtype", "dt", "deffun", "bare",
+                                                "xconv", "skip_pos", "Yd")}
+    if r.get("rev") is not True:
+        r.pop("rev", None)
     r["op"] = "c02_" + op
     if op == "ttm":
         pass
@@ -752,6 +805,9 @@ class C02Family(Family):
             return Verdict("violation", f"{op} on a {kind} holder: {reads_bad[0]}", impl, model, spec, tags + ["bad-sparse-result"])
         mval = canon_model(model["ok"]) if not m_rej else None
         sval = canon_model(spec)
+        if op == "tucker_sp" and c["what"] in ("norm", "innerprod", "mttkrp"):
+            op = c["what"]      # judged like the plain operation; the tags keep "tucker_sp"
+            kind = "tucker(sparse core)"
         if op == "norm":
             # the implementation returns sqrt(normSq) (ktensor: sqrt(abs(.)))
             from harness.lib import frac
@@ -803,7 +859,8 @@ def spec_sel(N, mults, dims, excl, conv, sel):
 class TtvFam(C02Family):
     name = "ttv"
     theorems = ("C02_ttv_dense", "C02_ttv_dense_dims", "C02_ttv_sparse", "C02_ttv_sparse_dims", "C02_ttv_spec_set",
-                "C02_dims_any_order", "C02_exclude_dims", "C02_list_len_P", "C02_list_len_N_vs_P")
+                "C02_dims_any_order", "C02_exclude_dims", "C02_list_len_P", "C02_list_len_N_vs_P",
+                "C02_ttv_kruskal_rejects_repeated_mode", "C02_sum_rejects")
 
     def case(self, rng, X, sel, conv, shuffle=True, tag=()):
         shape = h_shape(X)
@@ -909,11 +966,16 @@ class TtvFam(C02Family):
             X = rand_holder(rng, rng.choice(kinds), shape)
             sel = rng.choice(subsets(N))
             c = self.case(rng, X, sel, "dimsP", shuffle=False)
-            how = rng.choice(["size", "both", "count"])
+            how = rng.choice(["size", "both", "count", "repeated"])
             if how == "size":
                 c["vs"][0] = c["vs"][0] + [1]
             elif how == "both":
                 c["excl"] = [0]
+            elif how == "repeated":     # a mode listed twice, with a vector of the right length for each listing
+                d0 = c["dims"][0]
+                c["dims"] = list(c["dims"]) + [d0]
+                c["vs"] = list(c["vs"]) + [list(c["vs"][0])]
+                c["tag"] = list(c["tag"]) + ["bad:repeated-mode"]
             else:
                 if len(c["vs"]) + 1 == N:
                     c["vs"] = c["vs"] + [[1]] + [[1]]
@@ -930,7 +992,7 @@ class TtmFam(C02Family):
     name = "ttm"
     theorems = ("C02_ttm_dense_mode", "C02_ttm_dense", "C02_ttm_spec_peel", "C02_ttm_sparse_mode", "C02_ttm_sparse",
                 "C02_ttm_sparse_eq_dense", "C02_ttm_tucker", "C02_dims_any_order", "C02_exclude_dims",
-                "C02_list_len_P", "C02_list_len_N_vs_P")
+                "C02_list_len_P", "C02_list_len_N_vs_P", "C02_ttm_tucker_rejects")
 
     def case(self, rng, X, sel, conv, tr, single=False):
         shape = h_shape(X)
@@ -1007,7 +1069,8 @@ def with_layouts(rng, cases):
 class MttkrpFam(C02Family):
     name = "mttkrp"
     theorems = ("C02_mttkrp_dense", "C02_mttkrp_dense_kruskal", "C02_mttkrp_weights_spec", "C02_mttkrp_sparse",
-                "C02_mttkrp_parts", "C02_mttkrp_parts_kruskal_eq_list", "C02_mttkrp_sum", "C02_mttkrp_sum_kruskal")
+                "C02_mttkrp_parts", "C02_mttkrp_parts_kruskal_eq_list", "C02_mttkrp_sum", "C02_mttkrp_sum_kruskal",
+                "C02_get_mttkrp_factors_rejects", "C02_mttkrp_parts_rejects", "C02_mttkrp_tucker_rejects", "C02_sum_rejects")
 
     def gen(self, rng, tier):
         out = []
@@ -1035,6 +1098,25 @@ class MttkrpFam(C02Family):
             U["list"][m] = U["list"][m] + [U["list"][m][0]]
             out.append({"op": "mttkrp", "X": rand_holder(rng, rng.choice(kinds), shape), "U": U, "n": n, "fs": fs,
                         "lam": lam, "valid": False})
+        for _ in range(4 if tier == "quick" else 30):  # malformed: n is not a mode / a list with one factor too many or too few
+            shape = pick_shape(rng, 2, 3)
+            N = len(shape)
+            ask = rng.random() < 0.4
+            U, fs, lam = k_operand(rng, shape, ask)
+            kind = rng.choice(kinds)
+            how = rng.choice(["mode", "count"])
+            if how == "mode":
+                n = N + rng.choice([0, 1])
+            else:
+                n = rng.randrange(N)
+                key = "kruskal" if ask else "list"
+                L = U[key]["factors"] if ask else U[key]
+                if rng.random() < 0.5:
+                    L.append([list(r) for r in L[-1]])
+                else:
+                    L.pop()
+            out.append({"op": "mttkrp", "X": rand_holder(rng, kind, shape), "U": U, "n": n, "fs": fs, "lam": lam,
+                        "valid": False, "tag": [f"bad:{how}"]})
         return with_layouts(rng, out)
 
 
@@ -1081,7 +1163,7 @@ class MttkrpsFam(C02Family):
 class InnerFam(C02Family):
     name = "innerprod"
     theorems = ("C02_innerprod_dense", "C02_innerprod_sparse_sparse", "C02_innerprod_sparse_dense",
-                "C02_norm_dense", "C02_norm_sparse")
+                "C02_norm_dense", "C02_norm_sparse", "C02_innerprod_parts_rejects")
 
     def gen(self, rng, tier):
         out = []
@@ -1460,7 +1542,7 @@ DTYPE_PENDING = {
 #: result is computed in the storage type of the operands (a doctest of each pins an integer-typed result for
 #: integer input). Their deviations are reported as violations and accepted by a matcher only when the result is
 #: exactly what arithmetic in the storage type gives.
-DTYPE_KNOWN_KEYS = ("ttt:full", "ttt:partial", "ttt:outer", "scale:sparse:array", "scale:sparse:tensor")
+DTYPE_KNOWN_KEYS = ("ttt:full", "ttt:partial", "ttt:outer", "scale:sparse:array", "scale:sparse:tensor", "ttsv:default")
 
 
 def dt_pending(key, dt, md):
@@ -1599,6 +1681,16 @@ class DtypesFam(C02Family):
                             if kind == "dense":
                                 fs = [dt_rows(rng, dt, s_, 2) for s_ in shape]
                                 add("mttkrps:dense", dt, md, {"op": "mttkrps", "X": X(), "U": {"list": fs}, "fs": fs, "lam": [1, 1]})
+                        if kind == "dense":
+                            # ttsv on a cubical tensor: the default code path and the one through ttv
+                            cub = [2] * N
+                            for md in mds:
+                                for ver in ("none", "1"):
+                                    for skip in (None, 0):
+                                        xv = [dt_val(rng, dt) for _ in range(2)]
+                                        add(f"ttsv:{'default' if ver == 'none' else 'v1'}", dt, md,
+                                            {"op": "ttsv", "X": holder("dense", dt, cub), "x": xv, "skip": skip, "ver": ver,
+                                             "dnew": 0 if skip is None else 1})
                         if kind == "tucker":
                             continue
                         for sel in ([0], list(range(N))):
@@ -1660,6 +1752,274 @@ class DtypesFam(C02Family):
         return Verdict("violation", f"{key} on data stored as {dt} (multiplicands {md}): {why}", impl, model, spec, tags, True)
 
 
+# ----------------------------------------------------------------------------
+# tensor.ttsv: the same vector in every mode after the first skip_dim + 1
+# ----------------------------------------------------------------------------
+TTSV_KIND = {0: "scalar", 1: "vec", 2: "mat"}
+
+
+def ttsv_valid(shape, nx, skip, ver):
+    """does the definition prescribe a value for this request (and the documentation accept it)?"""
+    N = len(shape)
+    if ver not in ("none", "1", "2"):
+        return False
+    if skip is not None and not 0 <= skip < N:
+        return False
+    dnew = 0 if skip is None else skip + 1
+    if ver == "1":      # through ttv: only the multiplied modes must match the vector
+        return all(shape[d] == nx for d in range(dnew, N))
+    if any(e != shape[0] for e in shape):   # the direct computation is documented for cubical tensors only
+        return False
+    return dnew == N or nx == shape[0]
+
+
+class TtsvFam(C02Family):
+    """tensor.ttsv on both code paths (version=1 through ttv; the default / version=2 through reshape-dot), every
+    skip_dim the code accepts and the rejected ones, every result kind (scalar / 1-d array / 2-d array / tensor)"""
+    name = "ttsv"
+    theorems = ("C02_ttsv_dense", "C02_ttsv_v1_dense", "C02_ttsv_versions_agree", "C02_ttsv_rejects",
+                "C02_ttsv_spec_eq_ttv")
+
+    def case(self, rng, shape, skip, ver, nx=None, tag=(), zero_share=0.25):
+        shape = list(shape)
+        N = len(shape)
+        nx = shape[-1] if nx is None else nx
+        x = vec(rng, nx, zero_share)
+        if nx >= 2 and all(v >= 0 for v in x):      # at least one negative entry
+            x[rng.randrange(nx)] = -rng.choice([1, 2, 3])
+        if nx >= 3 and 0 not in x and rng.random() < 0.5:
+            x[rng.randrange(nx)] = 0
+        dnew = 0 if skip is None else min(max(skip + 1, 0), N)
+        c = {"op": "ttsv", "X": h_dense(rand_array(rng, shape, rng.choice([0.0, 0.2, 0.5]), -3, 3)), "x": x, "skip": skip,
+             "ver": ver, "dnew": dnew, "xconv": rng.choice(["array", "array", "list", "tuple", "col", "row"]),
+             "skip_pos": rng.random() < 0.5,
+             "tag": [f"ver:{ver}", f"skip:{'none' if skip is None else ('last' if skip == N - 1 else min(skip, 3))}",
+                     f"keep{min(dnew, 3)}", "cubical" if len(set(shape)) == 1 else "non-cubical",
+                     f"ext{min(shape)}" if len(set(shape)) == 1 else "ext-mixed"] + list(tag)}
+        c["tag"] += [f"x:{c['xconv']}", "skip:positional" if (c["skip_pos"] and skip is not None) else "skip:keyword"]
+        if not ttsv_valid(shape, nx, skip, ver):
+            c["valid"] = False
+        return c
+
+    def gen(self, rng, tier):
+        out = []
+        # ALWAYS: every order 1..5 x every extent x every skip_dim (absent, 0 .. N-1) x every version
+        for N in range(1, 6):
+            for sz in ((1, 2, 3) if (N <= 4 or tier == "thorough") else (1, 2)):
+                for skip in [None] + list(range(N)):
+                    for ver in ("none", "1", "2"):
+                        out.append(self.case(rng, [sz] * N, skip, ver, tag=["enumerated"]))
+        if tier == "thorough":
+            for N in range(1, 4):
+                for skip in [None] + list(range(N)):
+                    for ver in ("none", "1", "2"):
+                        out.append(self.case(rng, [4] * N, skip, ver, tag=["enumerated"]))
+        # version 1 goes through ttv: only the multiplied modes need the vector's length
+        for shape, skip in (([2, 3, 3], 0), ([4, 2, 2, 2], 0), ([2, 3, 4, 4], 1), ([2, 3, 4], 1), ([3, 2], 0), ([2, 3], 1),
+                            ([3, 1, 2, 2], 1), ([1, 3, 3], 0), ([2, 3, 4], 2), ([3, 2, 2, 2, 2], 0), ([2, 3, 2, 2, 2], 1),
+                            ([2, 3, 4, 2, 2], 2)):
+            for ver in ("1", "none", "2"):     # the direct computation refuses these (malformed stream)
+                out.append(self.case(rng, shape, skip, ver, tag=["v1-only"]))
+        # rejected requests: skip_dim outside the modes, unknown version, non-cubical, wrong vector length
+        for _ in range(6 if tier == "quick" else 40):
+            N = rng.randint(1, 4)
+            sz = rng.randint(1, 3)
+            shape = [sz] * N
+            how = rng.choice(["skip", "skip", "version", "noncubical", "veclen", "veclen-unused"])
+            ver = rng.choice(["none", "1", "2"])
+            if how == "skip":
+                out.append(self.case(rng, shape, rng.choice([-1, -2, N, N + 1]), ver, tag=["bad:skip"]))
+            elif how == "version":
+                out.append(self.case(rng, shape, rng.choice([None] + list(range(N))), rng.choice(["3", "0"]), tag=["bad:version"]))
+            elif how == "noncubical":
+                shp = list(shape) + [sz + 1]
+                rng.shuffle(shp)
+                skip = rng.choice([None] + list(range(len(shp))))
+                out.append(self.case(rng, shp, skip, ver, nx=rng.choice(shp), tag=["bad:noncubical"]))
+            elif how == "veclen":
+                skip = rng.choice([None] + list(range(N - 1)))
+                out.append(self.case(rng, shape, skip, ver, nx=sz + rng.choice([1, 2] if sz == 1 else [-1, 1]), tag=["bad:veclen"]))
+            else:   # nothing is multiplied, so the vector is never looked at: the tensor itself comes back
+                out.append(self.case(rng, shape, N - 1, ver, nx=sz + 1, tag=["veclen-unused"]))
+        # random cubical cases
+        for _ in range(20 if tier == "quick" else 300):
+            N = rng.randint(1, 5)
+            sz = rng.randint(1, 4 if N <= 3 else (3 if N == 4 else 2))
+            out.append(self.case(rng, [sz] * N, rng.choice([None] + list(range(N))), rng.choice(["none", "1", "2"]),
+                                 tag=["sampled"]))
+        return with_layouts(rng, out)
+
+    def judge(self, c, impl, rep):
+        shape = c["X"]["shape"]
+        tags = ["ttsv", f"N{len(shape)}"] + list(c.get("tag", []))
+        model, spec = rep["model"], rep["spec"]
+        m_rej = isinstance(model, dict) and model.get("reject") is True
+        i_rej = "ok" not in impl
+        if not c.get("valid", True):
+            tags.append("malformed")
+            ok = (i_rej == m_rej)
+            return Verdict("ok" if ok else "corr", "" if ok else "acceptance of a malformed request differs from the model",
+                           impl, model, None, tags + (["rejected"] if i_rej else ["accepted"]), False)
+        if i_rej:
+            return Verdict("violation", f"ttsv raised on a valid request: {impl.get('exc')}: {impl.get('msg')}",
+                           impl, model, spec, tags + ["raised"])
+        got = impl["ok"]
+        mval = canon_model(model["ok"]) if not m_rej else None
+        sval = canon_model(spec)
+        nt = nonzero_holder(c["X"]) and any(v != 0 for v in c["x"])
+        want_kind = TTSV_KIND.get(c["dnew"], "dense")
+        tags.append(f"ttsv->{got['kind']}")
+        _, gv = value_of(got)
+        _, sv = value_of(sval)
+        from harness.lib import jnum, num_eq
+        if len(gv) != len(sv) or not all(num_eq(jnum(a), jnum(b)) for a, b in zip(gv, sv)):
+            return Verdict("violation", "ttsv differs from the sum over indices", impl, model, spec, tags, nt)
+        if got["kind"] != want_kind or not same_value(got, sval):
+            return Verdict("violation", f"ttsv result kind: {got['kind']} of shape {value_of(got)[0]} where skip_dim="
+                           f"{c['skip']} prescribes {want_kind} of shape {value_of(sval)[0] if c['dnew'] else []}",
+                           impl, model, spec, tags + ["kind-mismatch"], nt)
+        if m_rej or not deep_eq(got, mval):
+            return Verdict("corr", "ttsv differs from the model", impl, model, spec, tags, nt)
+        return Verdict("ok", "", impl, model, spec, tags, nt)
+
+
+# ----------------------------------------------------------------------------
+# Tucker tensors whose core is an sptensor: innerprod / norm / mttkrp
+# ----------------------------------------------------------------------------
+SPCORE_FILL = ["empty", "one", "half", "full"]
+
+
+def spcore_tucker(rng, shape, cs=None, fill=None, order=None, lo=-2, hi=2):
+    """(holder with a sparse core, the same object with the core expanded); `fill` = sparsity class of the core"""
+    cs = list(cs) if cs is not None else [rng.randint(1, 3) for _ in shape]
+    fill = fill or rng.choice(SPCORE_FILL)
+    n = gen.numel(cs)
+    k = {"empty": 0, "one": 1, "half": max(1, n // 2), "full": n}[fill]
+    A = np.zeros(n, dtype=int)
+    for p_ in rng.sample(range(n), min(k, n)):
+        A[p_] = rng.choice([-3, -2, -1, 1, 2, 3])
+    A = A.reshape(tuple(cs), order="F")
+    # factors with entries of both signs (and a few zeros)
+    fs = [rand_mat(rng, s_, c_, 0.15, lo, hi) for s_, c_ in zip(shape, cs)]
+    for f in fs:
+        if all(v >= 0 for row in f for v in row):
+            f[rng.randrange(len(f))][rng.randrange(len(f[0]))] = -rng.choice([1, 2])
+    X = {"kind": "tucker", "core": h_sparse(A, rng, order=order), "factors": fs}
+    Xd = {"kind": "tucker", "core": {"shape": cs, "data": [int(x) for x in A.flatten(order="F")]}, "factors": fs}
+    return X, Xd
+
+
+class SparseCoreFam(C02Family):
+    """ttensor.innerprod / norm / mttkrp when the core is an sptensor: every sparsity class of the core (nothing / one
+    entry / half / everything stored, every stored order), non-cubical cores, factors with negative entries, every kind
+    of other operand (dense, sparse, Kruskal, Tucker with a dense or a sparse core) in both call orders, both sides of
+    every size switch, every mode n with a factor list and with a Kruskal operand (all weight patterns)"""
+    name = "tucker_sparse_core"
+    theorems = ("C02_innerprod_tucker_sparse_core", "C02_innerprod_tucker_sparse_core_tucker",
+                "C02_innerprod_tucker_sparse_core_kruskal", "C02_norm_tucker_sparse_core", "C02_mttkrp_tucker_sparse_core",
+                "C02_mttkrp_tucker_sparse_core_kruskal", "C02_tucker_sparse_core_eq_dense_core",
+                "C02_mttkrp_tucker_rejects", "C02_innerprod_parts_rejects")
+
+    def other(self, rng, yk, shape, fill=None):
+        """the second operand of innerprod"""
+        if yk == "tucker-sp":
+            Y, _ = spcore_tucker(rng, shape, fill=fill)
+            return Y
+        return rand_holder(rng, yk, shape)
+
+    def gen(self, rng, tier):
+        out = []
+        yks = ["dense", "sparse", "kruskal", "tucker", "tucker-sp"]
+        it = 0
+
+        def inner(shape, cs, fill, yk, rev, tag, ycs=None, yfill=None):
+            nonlocal it
+            it += 1
+            X, Xd = spcore_tucker(rng, shape, cs=cs, fill=fill, order=SP_ORDERS[it % len(SP_ORDERS)])
+            if yk == "tucker-sp":
+                Y, _ = spcore_tucker(rng, shape, cs=ycs, fill=yfill)
+            elif yk == "tucker" and ycs is not None:
+                Y = h_tucker(rng, shape, cs=ycs)
+            else:
+                Y = rand_holder(rng, yk, shape)
+            c = {"op": "tucker_sp", "what": "innerprod", "X": X, "Xd": Xd, "Y": Y,
+                 "tag": ["spcore:innerprod", f"core:{fill}", f"other:{yk}", "reversed" if rev else "direct"] + list(tag)}
+            if rev:
+                c["rev"] = True
+            out.append(c)
+
+        def norm(shape, cs, fill, tag):
+            nonlocal it
+            it += 1
+            X, Xd = spcore_tucker(rng, shape, cs=cs, fill=fill, order=SP_ORDERS[it % len(SP_ORDERS)])
+            out.append({"op": "tucker_sp", "what": "norm", "X": X, "Xd": Xd, "tag": ["spcore:norm", f"core:{fill}"] + list(tag)})
+
+        # ALWAYS: the size switches, one case per outcome x sparsity class x other operand kind x call order
+        switches = (([2, 2], [3, 3], "tensor<core"), ([2, 3], [2, 3], "tensor=core"), ([3, 4], [2, 2], "tensor>core"),
+                    ([2, 1, 2], [2, 3, 1], "tensor<core"), ([3, 2, 2], [1, 2, 2], "tensor>core"), ([3, 2, 3], [2, 1, 3], "tensor>core"))
+        for shape, cs, tagv in switches:
+            for fill in SPCORE_FILL:
+                for yk in ("dense", "sparse", "kruskal"):
+                    for rev in (False, True):
+                        if tier == "quick" and rng.random() < 0.5:
+                            continue
+                        inner(shape, cs, fill, yk, rev, ["switch:" + tagv])
+                norm(shape, cs, fill, ["switch:" + tagv])
+        # two Tucker tensors: first core larger / equal / smaller, each core dense or sparse, both call orders
+        for shape, c1, c2, tagv in (([3, 3], [3, 2], [2, 2], "core1>core2"), ([3, 3], [2, 2], [2, 2], "core1=core2"),
+                                    ([3, 2, 2], [1, 2, 1], [2, 2, 2], "core1<core2"), ([2, 3, 2], [2, 3, 1], [1, 2, 2], "core1>core2")):
+            for fill in SPCORE_FILL:
+                for yk in ("tucker", "tucker-sp"):
+                    for rev in (False, True):
+                        inner(shape, c1, fill, yk, rev, ["switch:" + tagv], ycs=c2, yfill=rng.choice(SPCORE_FILL))
+        # sampled: orders 1..4, non-cubical cores
+        for _ in range(30 if tier == "quick" else 300):
+            shape = pick_shape(rng, 1, 4, 3)
+            fill = rng.choice(SPCORE_FILL)
+            inner(shape, None, fill, rng.choice(yks), rng.random() < 0.5, ["sampled"])
+            norm(shape, None, rng.choice(SPCORE_FILL), ["sampled"])
+        # mttkrp: every mode n, factor list and Kruskal operand (every weight pattern), every sparsity class
+        pat = 0
+        reps = 1 if tier == "quick" else 6
+        for _ in range(reps):
+            for N in range(2, 5):
+                for fill in SPCORE_FILL:
+                    shape = pick_shape(rng, N, N, 3 if N == 4 else 4)
+                    cs = [rng.randint(1, 3) for _ in shape]
+                    if len(set(cs)) == 1 and N > 1:     # non-cubical core
+                        cs[rng.randrange(N)] = cs[0] % 3 + 1
+                    for n in range(N):
+                        for ask in (False, True):
+                            pattern = WEIGHT_PATTERNS[pat % len(WEIGHT_PATTERNS)]
+                            pat += int(ask)
+                            U, fs, lam = k_operand(rng, shape, ask, pattern=pattern)
+                            it += 1
+                            X, Xd = spcore_tucker(rng, shape, cs=cs, fill=fill, order=SP_ORDERS[it % len(SP_ORDERS)])
+                            br = "first" if n == 0 else ("last" if n == N - 1 else "middle")
+                            out.append({"op": "tucker_sp", "what": "mttkrp", "X": X, "Xd": Xd, "U": U, "n": n, "fs": fs, "lam": lam,
+                                        "tag": ["spcore:mttkrp", f"core:{fill}", br] +
+                                               ([f"kruskalU", f"w:{pattern}"] if ask else ["listU"])})
+        # malformed: shapes differ / a factor of the operand with the wrong number of rows
+        for _ in range(4 if tier == "quick" else 20):
+            shape = pick_shape(rng, 2, 3, 3)
+            s2 = list(shape)
+            s2[rng.randrange(len(s2))] += 1
+            X, Xd = spcore_tucker(rng, shape)
+            yk = rng.choice(yks)
+            Y = spcore_tucker(rng, s2)[0] if yk == "tucker-sp" else rand_holder(rng, yk, s2)
+            c = {"op": "tucker_sp", "what": "innerprod", "X": X, "Xd": Xd, "Y": Y, "valid": False, "tag": ["spcore:innerprod"]}
+            if rng.random() < 0.5:
+                c["rev"] = True
+            out.append(c)
+            U, fs, lam = k_operand(rng, shape, False)
+            n = rng.randrange(len(shape))
+            m = (n + 1) % len(shape)
+            U["list"][m] = U["list"][m] + [U["list"][m][0]]
+            out.append({"op": "tucker_sp", "what": "mttkrp", "X": X, "Xd": Xd, "U": U, "n": n, "fs": fs, "lam": lam,
+                        "valid": False, "tag": ["spcore:mttkrp"]})
+        return with_layouts(rng, out)
+
+
 def families():
     return [TtvFam(), TtmFam(), MttkrpFam(), MttkrpsFam(), InnerFam(), ContractCollapseScaleFam(), TttFam(), FullFam(),
-            ExtrasFam(), CrossFam(), DtypesFam()]
+            ExtrasFam(), CrossFam(), DtypesFam(), TtsvFam(), SparseCoreFam()]
